@@ -280,7 +280,10 @@ def rand_frac(rng: random.Random, lo: int = -20, hi: int = 20, dens=(1, 1, 2, 3,
 
 # ------------------------------------------------------------------------------ verdict
 class Check:
+    current: "Check | None" = None       # the check being run (used by run_check's safety net)
+
     def __init__(self, prop: str, level: str = "proof"):
+        Check.current = self
         self.prop = prop
         self.level = level
         self.t0 = time.time()
